@@ -30,7 +30,7 @@ DeepKey(ty, pattern) == ty \o "/" \o pattern
 DeepTrack(ty, pattern) ==
   IF DeepKey(ty, pattern) \in DOMAIN deep THEN deep[DeepKey(ty, pattern)] ELSE [maxok |-> 0, minrej |-> -1]
 
-CallEvents == {"Size", "Encode", "Decode", "Deep", "Reject", "Legacy", "Allocs"}
+CallEvents == {"Size", "Encode", "Decode", "Deep", "Reject", "Legacy", "Allocs", "Par"}
 
 \* rejected calls seen so far in the whole trace: (type, entry, argument kind) -> outcome
 RejKey == Line.ty \o "/" \o Line.entry \o "/" \o Line.arg
@@ -51,6 +51,7 @@ Judge ==
                                            THEN FailRoundTrip(Line.ty, cur.vals[Line.orig + 1], Line.in, Line.obs)
                                            ELSE {})])
     [] Line.ev = "Deep" -> JDeep(Line, DeepTrack(Line.ty, Line.pattern))
+    [] Line.ev = "Par" -> JPar(Line)
     [] Line.ev = "Legacy" -> JLegacy(Line)
     [] Line.ev = "Allocs" -> JAllocs(Line)
     [] Line.ev = "Reject" -> JReject(Line, IF RejKey \in DOMAIN rej THEN rej[RejKey] ELSE "")
@@ -58,7 +59,7 @@ Judge ==
 
 \* where the observed value departs from the expected one (diagnostic text only)
 Why(v) ==
-  IF Line.obs.out \in {"crash", "timeout", "panic"} THEN <<Line.obs.out>>
+  IF Line.obs.out \in {"crash", "timeout", "panic", "race"} THEN <<Line.obs.out>>
   ELSE IF Line.ev = "Deep" THEN <<Line.pattern, ToString(Line.d), ToString(Line.levels), Line.obs.out>>
   ELSE IF Line.ev = "Decode" /\ Len(Line.in) > 2000 THEN <<"(large value: no diff computed)">>
   ELSE IF Line.ev = "Decode" /\ Line.obs.out = "ok" /\ "rt_val" \in v
@@ -103,7 +104,9 @@ TraceCall ==
          v == j.fail IN
      /\ IF v = {} THEN ndev' = ndev ELSE Report(v) /\ ndev' = ndev + 1
      /\ Count(j.cls)
-     /\ IF Line.ev = "Legacy" THEN LegacyCall(Line.call) ELSE Call(Line.ty)
+     /\ IF Line.ev = "Legacy" THEN LegacyCall(Line.call)
+        ELSE IF Line.ev = "Par" THEN UNCHANGED apiVars
+        ELSE Call(Line.ty)
   /\ l' = l + 1
   /\ UNCHANGED cur
 
